@@ -537,6 +537,151 @@ def deserCollected (O : Oracles) (c : ClassOpts) (doc kw : List (String × PyVal
   | ns => ns
 
 
+/-! ### deserialization, phase one: WHERE the rejection is raised and which path its text carries
+
+Top-level scalars use the field's own `_name` (always the key).  List-like fields wrap every
+element error so that the text begins with `<name>_<i>` (`deserialize_list_like`), positional
+items always get the `<name>_<i>: ` prefix.  Since /repo 23519e1 the two places that used to add
+nothing do so too:
+  * `deserialize_map` wraps every key / value error: the inner field's message begins with whatever
+    its scratch `_name` holds (nothing on a fresh class, another field's name if the Field instance
+    is shared); it is kept if it starts with `<name>:` or `<name>_`, else prefixed `<name>: `;
+  * `content_type(values)` after the element loop (`set(values)` of an unhashable element) is
+    re-raised as `<name>: Got <value>; unhashable type: …`.
+Every phase-one site is therefore `named`; the kinds `inner` / `foreign` are kept only so that a
+regression which re-opens one of those sites has a name.
+The scratch names are an input of the model (observed by the harness just before the call). -/
+
+inductive P1Kind where
+  | named | inner | foreign
+deriving Repr, DecidableEq, Inhabited
+
+structure P1Site where
+  top : String
+  kind : P1Kind
+  /-- the text `str(e)` begins with (no class prefix); `none`: nothing is guaranteed -/
+  head : Option Text
+  cls : ErrCls
+deriving Repr, DecidableEq
+
+def errOf {α} : R α → ErrCls
+  | .error e => e
+  | .ok _ => .valueErr
+
+/-- exception class of a scalar's phase-one rejection (`Enum` never raises TypeError) -/
+def p1Cls (O : Oracles) (f : FieldDecl) (v : PyVal) : ErrCls :=
+  match f with
+  | .enumCls _ _ => .valueErr
+  | _ => errOf (validate O (stripSign f) v)
+
+def nameIdx (name : String) (i : Nat) : Text := name.toList ++ ('_' :: natText i i)
+
+/-- head of a top-level scalar's message: `<name>: ` (+ `Got ` for the value-first shape; Enum has
+    two spellings, only `<name>: ` is common to both) -/
+def p1ScalarHead (name : String) (f : FieldDecl) (v : PyVal) : Text :=
+  name.toList ++ (':' :: ' ' ::
+    (match f with
+     | .enumCls _ _ => []
+     | _ => if (locScalar (stripSign f) v).shape == .gotFirst then sGot else []))
+
+/-- first element the item field rejects, with its index -/
+def p1First (O : Oracles) (f : FieldDecl) : Nat → List PyVal → Option (Nat × PyVal)
+  | _, [] => none
+  | i, x :: xs => if p1Scalar O f x then some (i, x) else p1First O f (i + 1) xs
+
+def p1FirstZip (O : Oracles) : Nat → List FieldDecl → List PyVal → Option (Nat × FieldDecl × PyVal)
+  | i, f :: fs, x :: xs => if p1Scalar O f x then some (i, f, x) else p1FirstZip O (i + 1) fs xs
+  | _, _, _ => none
+
+/-- element of a homogeneous list-like field: the wrapper adds `<name>_<i>: ` unless the inner text
+    (which begins with the item field's scratch name, if it has one) already starts with `<name>_<i>` -/
+def p1ElemHead (scr : Option String) (name : String) (i : Nat) (item : FieldDecl) (x : PyVal) : Text :=
+  match item, x, scr with
+  -- Enum is a SerializableField: deserialize_single_field prefixes its errors with the name passed
+  -- in (`<name>_<i>`) unless they already start with it
+  | .enumCls _ _, _, _ => nameIdx name i
+  | .enumLit _, _, _ => nameIdx name i
+  | _, _, some s => if (dropPre (nameIdx name i) s.toList).isSome then s.toList else nameIdx name i
+  | _, _, none => nameIdx name i
+
+def p1ListLike (name : String) (v : PyVal)
+    (k : List PyVal → Option P1Site) : Option P1Site :=
+  match listLike v with
+  | none => some ⟨name, .named, some (name.toList ++ [':', ' '] ++ sGot), .valueErr⟩
+  | some xs => k xs
+
+def p1Homog (O : Oracles) (scr : List (Option String)) (name : String) (item : FieldDecl)
+    (xs : List PyVal) : Option P1Site :=
+  (p1First O item 0 xs).map fun ix =>
+    ⟨name, .named, some (p1ElemHead (scr.headD none) name ix.1 item ix.2), .valueErr⟩
+
+def p1Positional (O : Oracles) (name : String) (fs : List FieldDecl) (xs : List PyVal) :
+    Option P1Site :=
+  if xs.length < fs.length then some ⟨name, .named, some (name.toList ++ [':', ' '] ++ sGot), .valueErr⟩
+  else (p1FirstZip O 0 fs xs).map fun ifx =>
+    ⟨name, .named, some (nameIdx name ifx.1 ++ [':', ' ']), .valueErr⟩
+
+def p1SetBuild (name : String) (xs : List PyVal) : Option P1Site :=
+  if xs.any unhashableElem
+  then some ⟨name, .named, some (name.toList ++ [':', ' '] ++ sGot), .typeErr⟩ else none
+
+/-- a Map entry's rejection: the text begins with the map's own name — either the inner message
+    already did (`<name>:` / `<name>_…`, from a stale own scratch name) or `<name>: ` is prefixed -/
+def p1InnerSite (O : Oracles) (name : String) (f : FieldDecl) (x : PyVal) : P1Site :=
+  ⟨name, .named, some name.toList, p1Cls O f x⟩
+
+/-- entries in dict order; within an entry the VALUE is deserialized before the KEY
+    (`res[key_expr] = value_expr` evaluates the right-hand side first) -/
+def p1FirstEntry (O : Oracles) (scr : List (Option String)) (name : String) (kf vf : FieldDecl) :
+    List (PyVal × PyVal) → Option P1Site
+  | [] => none
+  | (k, x) :: rest =>
+    if p1Scalar O vf x then some (p1InnerSite O name vf x)
+    else if p1Scalar O kf k then some (p1InnerSite O name kf k)
+    else p1FirstEntry O scr name kf vf rest
+
+/-- the phase-one rejection site of one supplied, non-null document value (`none` = accepted).
+    `scr`: scratch `_name`s of the field's inner Field instances (item; or key, value). -/
+def p1Site (O : Oracles) (scr : List (Option String)) (name : String) (f : FieldDecl) (v : PyVal) :
+    Option P1Site :=
+  match f with
+  | .seqAny _ _ => p1ListLike name v fun _ => none
+  | .seqOf _ item _ => p1ListLike name v (p1Homog O scr name item)
+  | .tupleOf item _ => p1ListLike name v (p1Homog O scr name item)
+  | .seqPos _ fs _ _ => p1ListLike name v (p1Positional O name fs)
+  | .tuplePos fs _ => p1ListLike name v (p1Positional O name fs)
+  | .setAny _ _ => p1ListLike name v (p1SetBuild name)
+  | .setOf _ item _ =>
+    p1ListLike name v fun xs =>
+      match p1Homog O scr name item xs with
+      | some s => some s
+      | none => p1SetBuild name xs
+  | .mapAny _ =>
+    (match v with
+     | .dict _ => none
+     | _ => some ⟨name, .named, some (name.toList ++ [':', ' '] ++ sGot), .typeErr⟩)
+  | .mapOf kf vf _ =>
+    (match v with
+     | .dict kvs => p1FirstEntry O scr name kf vf kvs
+     | _ => some ⟨name, .named, some (name.toList ++ [':', ' '] ++ sGot), .typeErr⟩)
+  | f => if p1Scalar O f v then some ⟨name, .named, some (p1ScalarHead name f v), p1Cls O f v⟩ else none
+
+/-- all phase-one sites, in the order `construct_fields_map` visits the fields (`fields` must be
+    in class-definition order here) -/
+def p1Sites (O : Oracles) (scr : List (String × List (Option String))) (doc : List (String × PyVal))
+    (fields : List (String × FieldDecl)) : List P1Site :=
+  fields.filterMap fun nf =>
+    match lookup nf.1 doc with
+    | none => none
+    | some v => if v.isNone then none else p1Site O ((lookup nf.1 scr).getD []) nf.1 nf.2 v
+
+/-- a `named` site's text begins with its own field's name -/
+def P1Site.namesOwnField (s : P1Site) : Bool :=
+  match s.head with
+  | some h => (dropPre s.top.toList h).isSome
+  | none => false
+
+
 /-- the field text `p` names the top-level field `top` of class `cls?`:
     `[<Class>.]<top>[_<index> | _key | _value]` -/
 def namesField (cls : Option Text) (top : String) (p : Text) : Prop :=
